@@ -707,6 +707,40 @@ fn run_b(c: &CaseB, lines: &mut Vec<String>, flags: &mut CaseFlags) {
         obs!("PM4", obs_list(&v));
     }
 
+    // CL*: iteration orders of a `clone()`, of `FnGraph::new()` after `clone_from(&g)`, and of a
+    // different graph (chain 0 -> 1 -> 2) after `clone_from(&g)`
+    {
+        let order = |x: &FnGraph<Fun>| -> (String, String) {
+            (
+                obs_list(&x.iter().map(|f| f.idx).collect::<Vec<_>>()),
+                obs_list(&x.iter_rev().map(|f| f.idx).collect::<Vec<_>>()),
+            )
+        };
+        let c1 = g.clone();
+        let (i, r) = order(&c1);
+        obs!("CLI", i);
+        obs!("CLR", r);
+        let mut c2: FnGraph<Fun> = FnGraph::new();
+        c2.clone_from(&g);
+        let (i, r) = order(&c2);
+        obs!("CFI", i);
+        obs!("CFR", r);
+        let chain = [
+            Op::F { fid: 1, rd: vec![], wr: vec![] },
+            Op::F { fid: 2, rd: vec![], wr: vec![] },
+            Op::F { fid: 3, rd: vec![], wr: vec![] },
+            Op::L(0, 1),
+            Op::L(1, 2),
+        ];
+        if let Outcome::Ok { graph: mut c3, .. } = build_ops(&chain).outcome {
+            c3.clone_from(&g);
+            let (i, r) = order(&c3);
+            obs!("CGI", i);
+            obs!("CGR", r);
+            obs!("CEQ", ((c3 == g) as u8).to_string());
+        }
+    }
+
     // TF / TE
     let mut tf_entries = Vec::new();
     let mut te_entries = Vec::new();
@@ -820,6 +854,19 @@ fn graph_info_obs(id: u64, g: &FnGraph<Fun>, lines: &mut Vec<String>) {
         }
         Err(()) => obs("GS", "E".to_string()),
     }
+    // GS2: the same round trip through a `serde_yaml_ng::Value` and through a reader (deserialisers
+    // that hand out owned strings instead of strings borrowed from the input)
+    let via_value = serde_yaml_ng::to_value(&gi)
+        .map_err(|_| ())
+        .and_then(|v| serde_yaml_ng::from_value::<GraphInfo<u64>>(v).map_err(|_| ()));
+    let via_reader = serde_yaml_ng::to_string(&gi).map_err(|_| ()).and_then(|s| {
+        serde_yaml_ng::from_reader::<_, GraphInfo<u64>>(std::io::Cursor::new(s.into_bytes())).map_err(|_| ())
+    });
+    let ok = |r: &Result<GraphInfo<u64>, ()>| match r {
+        Ok(g2) => ((*g2 == gi) as u8).to_string(),
+        Err(()) => "E".to_string(),
+    };
+    obs("GS2", format!("{} {}", ok(&via_value), ok(&via_reader)));
 }
 
 fn run_bp(c: &CaseBP, lines: &mut Vec<String>, flags: &mut CaseFlags) {
